@@ -94,9 +94,9 @@ m = {
  "setup_cmd": "./check setup",
  "hooks": {
    "guard": "verif",
-   "enable": "go build -tags 'verif verifgen' -overlay build/overlay.json -ldflags=-checklinkname=0 (done by ./check; overlay = Prepare() half generated from live source)",
+   "enable": "go build -tags 'verif verifgen' -overlay build/overlay.json -ldflags=-checklinkname=0 (done by ./check; overlay = Prepare() half generated from live source + time.Now -> utils/verifclock.Now in every non-test file: per-node skewed wall clock)",
    "baseline_off_cmd": BASELINE,
-   "source_commits": ["0a453f7", "f5939a8"],
+   "source_commits": ["0a453f7", "f5939a8", "59b8f5a"],
    "add_only": True,
  },
  "engines": [
